@@ -48,16 +48,16 @@ Definition py_at {X} (l : list X) (k : Z) : option X :=
   else if Z.of_nat (length l) + k >=? 0 then nth_error l (Z.to_nat (Z.of_nat (length l) + k)) else None.
 
 (* the literal subscript ([] base) / the offset of the name-based subscript of an accessor *)
-Definition sub_lit (name : string) : Z :=
-  match assoc (tx name) NAV_SUBSCRIPTS with
+Definition sub_lit_in (tbl : list (text * list (text * Z))) (name : string) : Z :=
+  match assoc (tx name) tbl with
   | Some subs => match filter (fun bo => match fst bo with [] => true | _ => false end) subs with
                  | [(_, o)] => o
                  | _ => 1000
                  end
   | None => 1000
   end.
-Definition sub_var (name : string) : Z :=
-  match assoc (tx name) NAV_SUBSCRIPTS with
+Definition sub_var_in (tbl : list (text * list (text * Z))) (name : string) : Z :=
+  match assoc (tx name) tbl with
   | Some subs => match filter (fun bo => match fst bo with [] => false | _ => true end) subs with
                  | [(_, o)] => o
                  | _ => 1000
@@ -65,60 +65,38 @@ Definition sub_var (name : string) : Z :=
   | None => 1000
   end.
 
+Definition sub_lit := sub_lit_in NAV_SUBSCRIPTS.
+Definition sub_var := sub_var_in NAV_SUBSCRIPTS.
+
 (* ---- A. identity, not equality ---- *)
-Definition row_identity (nm : text) : bool :=
-  match assoc nm NAV_IDENTITY with
+Definition row_identity_in (tbl : list (text * (bool * list text))) (nm : text) : bool :=
+  match assoc nm tbl with
   | Some (true, _) => true
   | Some (false, calls) =>
       (mem_text (tx "Node.get_index") calls || mem_text (tx "TypedNode.get_index") calls) &&
-      forallb (fun cn => match assoc cn NAV_IDENTITY with Some (true, _) => true | _ => false end) calls
+      forallb (fun cn => match assoc cn tbl with Some (true, _) => true | _ => false end) calls
   | None => false
   end.
 
-Definition reads_children (nm : text) : bool :=
-  match assoc nm NAV_PARENT_READS with Some l => mem_text (tx "_children") l | None => false end.
+Definition reads_children_in (tbl : list (text * list text)) (nm : text) : bool :=
+  match assoc nm tbl with Some l => mem_text (tx "_children") l | None => false end.
 
 Definition node_position_accessors : list text :=
   map tx ["Node.get_index"; "Node.prev_sibling"; "Node.next_sibling"; "Node.is_first_sibling";
           "Node.is_last_sibling"; "Node.get_siblings"]%string.
-Definition typed_position_accessors : list text :=
-  map tx ["TypedNode.get_index"; "TypedNode.prev_sibling"; "TypedNode.next_sibling"; "TypedNode.is_first_sibling";
-          "TypedNode.is_last_sibling"; "TypedNode.get_siblings"]%string.
 Definition node_accessors : list text :=
   node_position_accessors ++
   map tx ["Node.first_sibling"; "Node.last_sibling"; "Node.first_child"; "Node.last_child"; "Node.get_top";
           "Node.is_descendant_of"; "Node.get_common_ancestor"; "Node.get_parent_list"]%string.
-Definition typed_accessors : list text :=
-  typed_position_accessors ++
-  map tx ["TypedNode.first_sibling"; "TypedNode.last_sibling"; "TypedNode.first_child"; "TypedNode.last_child";
-          "TypedNode.get_children"; "TypedNode.has_children"]%string.
-
 (* no accessor compares nodes by equality; positions are found by identity in self._parent._children;
    the plain accessors contain no `==` at all *)
 Definition node_identity_ok : bool :=
   forallb (fun nm => negb (mem_text nm NAV_EQ_ON_NODES)) node_accessors &&
-  forallb row_identity node_position_accessors &&
-  forallb reads_children node_position_accessors &&
-  forallb (fun nm => match assoc nm NAV_N_VALUE_COMPARES with Some [] => true | _ => false end) node_accessors.
-
-(* typed accessors: the same, and every `==` they contain compares kinds *)
-Definition typed_identity_ok : bool :=
-  forallb (fun nm => negb (mem_text nm NAV_EQ_ON_NODES)) typed_accessors &&
-  forallb row_identity typed_position_accessors &&
-  forallb reads_children typed_position_accessors &&
-  forallb (fun nm => match assoc nm NAV_T_KIND_COMPARES with
-                     | Some l => forallb (fun a => mem_text a [tx "_kind"; tx "kind"]) l
-                     | None => false
-                     end) typed_accessors &&
-  (* the kind-filtering accessors do compare kinds *)
-  forallb (fun nm => match assoc nm NAV_T_KIND_COMPARES with Some (_ :: _) => true | _ => false end)
-          (map tx ["TypedNode.prev_sibling"; "TypedNode.next_sibling"; "TypedNode.get_siblings"; "TypedNode.first_sibling";
-                   "TypedNode.last_sibling"; "TypedNode.first_child"; "TypedNode.last_child"; "TypedNode.get_children"]%string).
+  forallb (row_identity_in NAV_IDENTITY) node_position_accessors &&
+  forallb (reads_children_in NAV_PARENT_READS) node_position_accessors &&
+  forallb (fun nm => match assoc nm NAV_VALUE_COMPARES with Some [] => true | _ => false end) node_accessors.
 
 Lemma node_identity_holds : GEN_NAV_OK = true /\ node_identity_ok = true.
-Proof. split; vm_compute; reflexivity. Qed.
-
-Lemma typed_identity_holds : GEN_NAV_OK = true /\ typed_identity_ok = true.
 Proof. split; vm_compute; reflexivity. Qed.
 
 (* ---- B. subscripts of node.py = what the model computes ---- *)
@@ -190,78 +168,3 @@ Proof.
     + intros ->. reflexivity.
 Qed.
 
-(* ---- D. typed_tree.py: has_children, next_sibling, prev_sibling ---- *)
-Theorem typed_has_children_agrees (ch : list rt) (k : text) :
-  cmp_eval NAV_T_HAS_CHILDREN_OP (Z.of_nat (length (t_get_children ch (Some k)))) NAV_T_HAS_CHILDREN_K
-  = Some (t_has_children ch (Some k)).
-Proof.
-  change (cmp_eval NAV_T_HAS_CHILDREN_OP (Z.of_nat (length (t_get_children ch (Some k)))) NAV_T_HAS_CHILDREN_K)
-    with (Some (Z.of_nat (length (t_get_children ch (Some k))) >? 0)).
-  unfold t_has_children. f_equal. destruct (length (t_get_children ch (Some k))); reflexivity.
-Qed.
-
-Lemma skipn_all' {X} (l : list X) n : (length l <= n)%nat -> skipn n l = [].
-Proof. revert n. induction l as [|x l IH]; intros [|n] H; cbn in *; try reflexivity; try lia. apply IH. lia. Qed.
-
-Theorem typed_next_agrees (c : ctx) (any : bool) (i : nat) :
-  index_of (rid (c_self c)) (c_sibs c) = Some i ->
-  t_next c any =
-  match cmp_eval NAV_T_NEXT_GUARD_OP (Z.of_nat i) (Z.of_nat (length (c_sibs c)) + NAV_T_NEXT_GUARD_ADD) with
-  | Some true => find (fun t => any || same_kind t (c_self c))
-                      (skipn (Z.to_nat (Z.of_nat i + NAV_T_NEXT_RANGE_START)) (c_sibs c))
-  | _ => None
-  end.
-Proof.
-  intros Hi. unfold t_next. rewrite Hi.
-  change (cmp_eval NAV_T_NEXT_GUARD_OP (Z.of_nat i) (Z.of_nat (length (c_sibs c)) + NAV_T_NEXT_GUARD_ADD))
-    with (Some (Z.of_nat i <? Z.of_nat (length (c_sibs c)) + -1)).
-  change NAV_T_NEXT_RANGE_START with 1.
-  replace (Z.to_nat (Z.of_nat i + 1)) with (S i) by lia.
-  destruct (Z.of_nat i <? Z.of_nat (length (c_sibs c)) + -1) eqn:E; [reflexivity|].
-  apply Z.ltb_ge in E. rewrite skipn_all' by lia. reflexivity.
-Qed.
-
-Theorem typed_prev_agrees (c : ctx) (any : bool) (i : nat) :
-  index_of (rid (c_self c)) (c_sibs c) = Some i ->
-  t_prev c any =
-  match cmp_eval NAV_T_PREV_GUARD_OP (Z.of_nat i) NAV_T_PREV_GUARD_K with
-  | Some true => find (fun t => any || same_kind t (c_self c)) (rev (firstn i (c_sibs c)))
-  | _ => None
-  end /\
-  (* range(own_idx - 1, -1, -1) and, in last_child, range(len - 1, -1, -1): downwards to index 0 inclusive *)
-  NAV_T_PREV_RANGE = [-1; -1; -1] /\ NAV_T_LAST_CHILD_RANGE = [-1; -1; -1].
-Proof.
-  intros Hi. split; [|split; reflexivity]. unfold t_prev. rewrite Hi.
-  change (cmp_eval NAV_T_PREV_GUARD_OP (Z.of_nat i) NAV_T_PREV_GUARD_K) with (Some (Z.of_nat i >? 0)).
-  destruct i; reflexivity.
-Qed.
-
-Lemma typed_sub_values :
-  sub_lit "TypedNode.first_child" = 0 /\ sub_lit "TypedNode.last_child" = -1 /\
-  sub_lit "TypedNode.first_sibling" = 0 /\ sub_lit "TypedNode.last_sibling" = -1 /\
-  sub_lit "TypedNode.is_first_sibling" = 0 /\ sub_lit "TypedNode.is_last_sibling" = -1 /\
-  sub_var "TypedNode.prev_sibling" = 0 /\ sub_var "TypedNode.next_sibling" = 0 /\ sub_var "TypedNode.last_child" = 0.
-Proof. vm_compute. repeat split. Qed.
-
-(* the ANY_KIND / any_kind=True branches index the full list at [0] / [-1] *)
-Theorem typed_subscripts_agree (c : ctx) (ch : list rt) :
-  t_first_child ch None = py_at ch (sub_lit "TypedNode.first_child") /\
-  t_last_child ch None = py_at ch (sub_lit "TypedNode.last_child") /\
-  t_first_sibling c true = py_at (c_sibs c) (sub_lit "TypedNode.first_sibling") /\
-  t_last_sibling c true = py_at (c_sibs c) (sub_lit "TypedNode.last_sibling") /\
-  t_is_first c true = match py_at (c_sibs c) (sub_lit "TypedNode.is_first_sibling") with
-                      | Some t => is_self (rid (c_self c)) t | None => false end /\
-  t_is_last c true = match py_at (c_sibs c) (sub_lit "TypedNode.is_last_sibling") with
-                     | Some t => is_self (rid (c_self c)) t | None => false end /\
-  (* the scans read pc[idx] / all_children[i] with no further offset *)
-  sub_var "TypedNode.prev_sibling" = 0 /\ sub_var "TypedNode.next_sibling" = 0 /\ sub_var "TypedNode.last_child" = 0.
-Proof.
-  destruct typed_sub_values as (-> & -> & -> & -> & -> & -> & -> & -> & ->).
-  refine (conj _ (conj _ (conj _ (conj _ (conj _ (conj _ (conj eq_refl (conj eq_refl eq_refl)))))))).
-  - rewrite typed_first_child_any. apply hd_error_py.
-  - rewrite typed_last_child_any. apply last_error_py.
-  - unfold t_first_sibling. apply hd_error_py.
-  - unfold t_last_sibling. apply last_error_py.
-  - unfold t_is_first, t_first_sibling. now rewrite hd_error_py.
-  - unfold t_is_last, t_last_sibling. now rewrite last_error_py.
-Qed.
